@@ -7,7 +7,8 @@ use crate::trackers::sort::AutoWaste;
 #[cfg(not(similari_verif))]
 use std::sync::{RwLockReadGuard, RwLockWriteGuard};
 #[cfg(similari_verif)]
-use similari_verif_rt::sync::{RwLockReadGuard, RwLockWriteGuard};
+#[allow(unused_imports)]
+use similari_verif_rt::sync::*;
 
 pub trait TrackerAPI<TA, M, OA, E, N>
 where
